@@ -26,7 +26,8 @@ fn main() {
     let cli = Cli::parse();
     mc_core::quiet_panics();
     // programs print through msg!/println!; keep our own channel
-    let _saved = mc_core::silence_stdout();
+    // (SVM_LOG=1 keeps the program logs on stdout: a debugging aid, never set by ./check)
+    let _saved = std::env::var_os("SVM_LOG").is_none().then(mc_core::silence_stdout);
     svm::install();
     let rep: Report = match cli.property.as_str() {
         "SELFTEST" => match svm::selftest().and_then(|_| world::selftest()) {
